@@ -246,7 +246,7 @@ func (e *Engine) zero(t types.Type) Value {
 type unsupportedErr struct{ msg string }
 
 func (u unsupportedErr) Error() string { return "unsupported: " + u.msg }
-func unsupported(msg string) error       { return unsupportedErr{msg} }
+func unsupported(msg string) error     { return unsupportedErr{msg} }
 
 // sameValue is structural identity of two values (no solver).
 func sameValue(a, b Value) bool {
